@@ -31,6 +31,29 @@ def check(rep, tier, seed):
     impl, mod = C.run_codec(harness, model, cuts, wd, "cut")
     dis = [(C.codec_line(c), a, b) for c, a, b in zip(cuts, impl, mod) if a != b]
     bad = [(c, a) for c, a in zip(cuts, impl) if not a.startswith("err ")]
+    # other definitions (the last clause of the property): data of version w >= 1 of a legal history cut at every
+    # position and read by version r != w - older readers that do not know the last chunks, newer readers that
+    # dropped fields. Theorem side: C08_any_accepted_input (+ C07_cross_version: the whole encoding is consumed).
+    from . import c03 as H3
+    hc = [c for c in H3.gen_cases(seed + 8, tier) if not c["illegal"] and c["w"] >= 1 and c["w"] != c["r"]]
+    himpl = H3.run_stream(harness, model, hc, C.workdir("C08x"))
+    xcuts = []
+    for c, il in zip(hc, himpl):
+        enc_part, _, dec_part = il.partition(" ; ")
+        if not (c["legal"] and c["expected"].startswith("ok ") and enc_part.startswith("ok ") and dec_part.startswith("ok ")):
+            continue
+        hx = enc_part.split(" ")[1]
+        n = len(hx) // 2
+        ks = list(range(n)) if n <= maxcuts else sorted(set([0, 1, 2, n - 1, n - 2] + rng.sample(range(n), maxcuts - 5)))
+        for k in ks:
+            xcuts.append({"env": c["envR"], "cmd": "dec", "ty": c["wrap"], "hex": hx[:2 * k] or "-", "_full": n, "_k": k,
+                          "_w": c["w"], "_r": c["r"]})
+    ximpl, xmod = C.run_codec(harness, model, xcuts, wd, "xcut")
+    dis += [(C.codec_line(c), a, b) for c, a, b in zip(xcuts, ximpl, xmod) if a != b]
+    xbad = [(c, a) for c, a in zip(xcuts, ximpl) if not a.startswith("err ")]
+    rep.coverage["cross_version_cuts"] = {"prefixes": len(xcuts), "accepted": len(xbad),
+                                          "older_reader": sum(1 for c in xcuts if c["_r"] < c["_w"]),
+                                          "newer_reader": sum(1 for c in xcuts if c["_r"] > c["_w"])}
     C.proof_coverage(rep, ob, "C08")
     lines = [C.codec_line(c) for c in cuts]
     errs = {}
@@ -38,7 +61,7 @@ def check(rep, tier, seed):
         k = a.split("(")[0]
         errs[k] = errs.get(k, 0) + 1
     rep.coverage.update({
-        "evaluations": len(cuts), "distinct_nontrivial": len(set(lines)),
+        "evaluations": len(cuts) + len(xcuts), "distinct_nontrivial": len(set(lines)),
         "rule": "encodings of the C01/C02 streams (built-in types to depth 5, derived and evolved records and enums, "
                 "nested) cut at every position (all cuts up to 40 bytes, 40 sampled cuts incl. the first and last two "
                 "beyond); every strict prefix must decode to Err (not Ok, not a panic) with the writing definition; "
@@ -46,9 +69,16 @@ def check(rep, tier, seed):
         "samples": lines[:3] + lines[-2:], "encodings_cut": len([a for a in impl_enc if a.startswith("ok ")]),
         "disagreements_checked": len(cuts), "disagreements": len(dis), "error_classes": errs,
     })
+    if xbad and not bad:
+        c, a = xbad[0]
+        rep.violation(f"a strict prefix ({c['_k']} of {c['_full']} bytes) of version-{c['_w']} data is accepted by version {c['_r']}: "
+                      f"{C.codec_line(c)[:140]} -> {a[:80]}",
+                      {"kind": "case", "env": c["env"], "case": C.codec_line(c), "implementation": a,
+                       "cut": c["_k"], "of": c["_full"], "writer_version": c["_w"], "reader_version": c["_r"],
+                       "n_failing": len(xbad)})
     if bad:
         c, a = bad[0]
         rep.violation(f"a strict prefix ({c['_k']} of {c['_full']} bytes) is not rejected: {C.codec_line(c)[:160]} -> {a[:80]}",
                       {"kind": "case", "env": c["env"], "case": C.codec_line(c), "implementation": a,
                        "cut": c["_k"], "of": c["_full"], "n_failing": len(bad)})
-    C.report_broken(rep, ob, dis, "codec/dec-prefix", bool(bad))
+    C.report_broken(rep, ob, dis, "codec/dec-prefix", bool(bad) or bool(xbad))
